@@ -84,6 +84,74 @@ fn main() {
                 }
             }
         }
+        "replay-bin" => {
+            if args.len() < 4 {
+                usage();
+            }
+            let data = match std::fs::read(&args[3]) {
+                Ok(d) => d,
+                Err(e) => {
+                    eprintln!("cannot read {}: {e}", args[3]);
+                    exit(2)
+                }
+            };
+            match pgverif::engine::guarded(|| pgverif::fuzzapi::run(&args[2], &data)) {
+                Ok(Some(Ok(()))) => {
+                    println!("replay {} {}: property holds on this input", args[2], args[3]);
+                    exit(0)
+                }
+                Ok(Some(Err(f))) => {
+                    println!("VIOLATION property={} replay={}", args[2], args[3]);
+                    println!("  sig={} : {}", f.sig, f.msg);
+                    exit(1)
+                }
+                Ok(None) => {
+                    eprintln!("no fuzz entry point for {}", args[2]);
+                    exit(2)
+                }
+                Err(p) => {
+                    println!("VIOLATION property={} replay={}", args[2], args[3]);
+                    println!("  panic: {p}");
+                    exit(1)
+                }
+            }
+        }
+        "gen-seeds" => {
+            // pgverif gen-seeds <ID> <dir>: write small structured seed inputs for the libFuzzer stage
+            if args.len() < 4 {
+                usage();
+            }
+            let dir = std::path::Path::new(&args[3]);
+            let _ = std::fs::create_dir_all(dir);
+            let seed = std::env::var("VERIF_SEED").ok().and_then(|s| s.trim().parse::<u64>().ok()).unwrap_or(20261001);
+            let cfg = pgverif::gen::mapping::GenCfg { plain_sourcefile_headers: true, ..Default::default() };
+            let cases = pgverif::engine::sample_n(&pgverif::props::common::map_case(&cfg), seed, 40);
+            let mut n = 0;
+            for c in cases {
+                let b = c.bytes();
+                let data: Vec<u8> = match args[2].as_str() {
+                    "C12" => {
+                        // seed selector + a few edit groups
+                        let mut v = vec![(c.key % 3) as u8];
+                        v.extend_from_slice(&c.key.to_le_bytes()[..7]);
+                        v.extend_from_slice(&(c.key.rotate_left(17)).to_le_bytes()[..7]);
+                        v
+                    }
+                    _ => b,
+                };
+                let _ = std::fs::write(dir.join(format!("gen-{n:03}")), data);
+                n += 1;
+            }
+            if args[2] != "C12" {
+                for f in ["mapping-inlines.txt", "mapping-callback.txt", "mapping-r8-symbolicated_file_names.txt"] {
+                    if let Ok(b) = std::fs::read(format!("/repo/tests/res/{f}")) {
+                        let _ = std::fs::write(dir.join(format!("corpus-{f}")), &b[..b.len().min(4096)]);
+                    }
+                }
+            }
+            println!("{n} seeds written to {}", dir.display());
+            exit(0)
+        }
         "c14-child" => exit(pgverif::props::c14::child_main()),
         "c18-child" => exit(pgverif::props::c18::child_main()),
         _ => usage(),
